@@ -244,8 +244,10 @@ Proof. vm_compute. repeat split; reflexivity. Qed.
                                      sub-object default propagation run with fuel K), ARE built (not OutOfFuel:
                                      absence of D52) and each is processed by its own property type within K
                                      steps (the analogue of defaults_total, absence of D50).
-     The class is boolean, excludes the D52 witness for EVERY K (C04_struct_terminating_excludes_d52, by the
-     theorem itself), D11 for every K and D50 at the K tried, and contains the harness descriptors and recursive
+     The class is boolean; it excludes, for EVERY K, every schema that has an input on which Unserialize has no
+     sufficient fuel (C04_struct_terminating_excludes_divergent, by the theorem itself): the D52 witness
+     (C04_struct_terminating_excludes_d52) and the well-formed D11 / D50 witnesses of Proofs/C04Refuted.v, embedded
+     (C04_struct_terminating_excludes_d11_d50_embedded); it contains the harness descriptors and recursive
      struct-mapped / map-based schemas (C04_struct_terminates_example).  It is slightly smaller than "no D11 /
      D50 / D52": the walk counts one-of members for non-map inputs too (the member of a struct VALUE is reached
      without consuming input in Validate / Serialize).
@@ -358,7 +360,9 @@ Example C04_struct_terminates_example :
            (xs_env []) (xs_scope "XNested") xt_v_nested) = true.
 Proof. exact xt_rec_terminating. Qed.
 
-(* the class excludes the D52 witness of C04_struct_subdefault_cycle_refuted for every K; D11 for every K, D50 at K = 50 *)
+(* the class excludes the D52 witness of C04_struct_subdefault_cycle_refuted for every K; the D11 shape over xschema for
+   every K (the walk part of the class does not look at K) and the D50 shape at K = 50 under the oracle of xs_env, which
+   does not decode "{}" - the genuine D50 witness (an oracle that decodes "{}") is excluded for every K below *)
 Theorem C04_struct_terminating_excludes_d52 : forall K, xterminating w_words w_pu K (w_env []) w_rec = false.
 Proof. exact xt_excludes_d52. Qed.
 Print Assumptions C04_struct_terminating_excludes_d52.
@@ -368,3 +372,18 @@ Theorem C04_struct_terminating_excludes_d11_d50 :
   xterminating w_words w_pu 50 (xs_env []) xt_d50 = false.
 Proof. exact xt_excludes_d11_d50. Qed.
 Print Assumptions C04_struct_terminating_excludes_d11_d50.
+
+(* every schema with an input on which Unserialize has no sufficient fuel is outside the class, for every K; in
+   particular the D11 and D50 witnesses of C04_inline_cycle_refuted / C04_default_cycle_refuted, embedded (both xwf) *)
+Theorem C04_struct_terminating_excludes_divergent : forall words pu (e : xenv) (s : xschema) (v : gval),
+  (forall fuel, xunser words pu fuel e s v = OutOfFuel) -> forall K, xterminating words pu K e s = false.
+Proof. exact xt_divergent_excluded. Qed.
+Print Assumptions C04_struct_terminating_excludes_divergent.
+
+Theorem C04_struct_terminating_excludes_d11_d50_embedded : forall words pu st K,
+  xterminating words pu K (embed_env st Proofs.C04Refuted.d11_env) (embed Proofs.C04Refuted.d11_scope) = false /\
+  xterminating words pu K (embed_env st Proofs.C04Refuted.d50_env) (embed Proofs.C04Refuted.d50_scope) = false /\
+  xwf (embed_env st Proofs.C04Refuted.d11_env) (embed Proofs.C04Refuted.d11_scope) = true /\
+  xwf (embed_env st Proofs.C04Refuted.d50_env) (embed Proofs.C04Refuted.d50_scope) = true.
+Proof. exact xt_excludes_embedded_d11_d50. Qed.
+Print Assumptions C04_struct_terminating_excludes_d11_d50_embedded.
